@@ -150,6 +150,9 @@ func (r *ReflectCopier[Src, Dst]) createFieldNodes(root *fieldNode, srcTyp, dstT
 			// 同上，当当前节点是叶子节点时, 直接拷贝
 			child.isLeaf = true
 		} else if fieldSrcTyp.Kind() == reflect.Struct {
+			if fieldDstTyp.Kind() != reflect.Struct {
+				return newErrKindNotMatchError(fieldSrcTyp.Kind(), fieldDstTyp.Kind(), dstFieldTypStruct.Name)
+			}
 			if err := r.createFieldNodes(&child, fieldSrcTyp, fieldDstTyp); err != nil {
 				return err
 			}
